@@ -15,8 +15,13 @@ Definition attr_ok (a : option Z) : Prop := match a with Some v => 0 <= v < 2^48
 Theorem gen_test_attribute a bit : AttrDecoders.test_attribute a bit = Ok (Mode.test_attribute a bit).
 Proof. destruct a; reflexivity. Qed.
 
-Theorem gen_is_directory a : AttrDecoders.is_directory a = Ok (Mode.is_directory a).
-Proof. unfold AttrDecoders.is_directory. rewrite gen_test_attribute. reflexivity. Qed.
+(* emptystream / emptyfile : option bool are self._file_info["emptystream"] / ["emptyfile"] (None: the key is absent;
+   FilesInfo._read stores bools).  `if x` / `not y` on them: None and False are false *)
+Theorem gen_is_directory a es ef : AttrDecoders.is_directory a es ef = Ok (Mode.is_directory a es ef).
+Proof.
+  unfold AttrDecoders.is_directory, Mode.is_directory, Mode.attr_is_directory, Mode.flag_set.
+  destruct es as [[|]|]; try reflexivity; rewrite gen_test_attribute; reflexivity.
+Qed.
 
 Theorem gen_readonly a : AttrDecoders.readonly a = Ok (Mode.is_readonly a).
 Proof. unfold AttrDecoders.readonly. rewrite gen_test_attribute. reflexivity. Qed.
@@ -79,7 +84,7 @@ Proof. split; reflexivity. Qed.
 
 (* an attribute word as the header stores it (UINT32): every decoder is the hand model *)
 Corollary gen_decoders_uint32 v : 0 <= v < 2^32 ->
-  AttrDecoders.is_directory (Some v) = Ok (Mode.is_directory (Some v)) /\
+  (forall es ef, AttrDecoders.is_directory (Some v) es ef = Ok (Mode.is_directory (Some v) es ef)) /\
   AttrDecoders.is_symlink (Some v) = Ok (Mode.is_symlink (Some v)) /\
   AttrDecoders.is_junction (Some v) = Ok (Mode.is_junction (Some v)) /\
   AttrDecoders.is_socket (Some v) = Ok (Mode.is_socket (Some v)) /\
@@ -90,30 +95,53 @@ Proof.
   intros Hv. assert (Hok : attr_ok (Some v)).
   { unfold attr_ok. change (2 ^ 48) with 281474976710656. change (2 ^ 32) with 4294967296 in Hv. lia. }
   repeat match goal with |- _ /\ _ => split end;
-    [apply gen_is_directory | now apply gen_is_symlink | apply gen_is_junction | now apply gen_is_socket
+    [intros; apply gen_is_directory | now apply gen_is_symlink | apply gen_is_junction | now apply gen_is_socket
     | apply gen_readonly | now apply gen_posix_mode | now apply gen_st_fmt].
 Qed.
+
+(* the flags of an entry py7zr wrote, as FilesInfo._read leaves them: a directory is an empty-stream entry whose EmptyFile
+   bit is not set (flag False or absent); files and links are not empty-stream (flag False or absent) *)
+Definition flags_written (k : kind) (es ef : option bool) : Prop :=
+  flag_set es = emptystream_of k /\ (emptystream_of k = true -> flag_set ef = false).
 
 (* C02's attribute round trip through the decoders the source has NOW: for EVERY integer st_mode, the word
    _make_file_info writes (hand model attributes_of) decodes, through the generated ArchiveFile decoders, to the
    same kind and to S_IMODE(st_mode), and none of them raises *)
-Theorem gen_mode_roundtrip (k : kind) (st_mode : Z) :
+Theorem gen_mode_roundtrip (k : kind) (st_mode : Z) (es ef : option bool) : flags_written k es ef ->
   let a := attributes_of k st_mode in
   AttrDecoders.posix_mode (Some a) = Ok (Some (S_IMODE st_mode))
-  /\ AttrDecoders.is_directory (Some a) = Ok (kind_eqb k KDir)
+  /\ AttrDecoders.is_directory (Some a) es ef = Ok (kind_eqb k KDir)
   /\ AttrDecoders.is_symlink (Some a) = Ok (kind_eqb k KLink)
   /\ AttrDecoders.is_junction (Some a) = Ok false /\ AttrDecoders.is_socket (Some a) = Ok false
   /\ AttrDecoders.readonly (Some a) = Ok false.
 Proof.
-  intros a. destruct (mode_roundtrip k st_mode) as (Hp & _ & Hd & Hl & Hj & Hs & Hr & Hb). fold a in Hp, Hd, Hl, Hj, Hs, Hr, Hb.
+  intros [Hes Hef] a. destruct (mode_roundtrip k st_mode) as (Hp & _ & Hd & Hl & Hj & Hs & Hr & Hb). fold a in Hp, Hd, Hl, Hj, Hs, Hr, Hb.
   destruct (gen_decoders_uint32 a Hb) as (Gd & Gl & Gj & Gs & Gr & Gp & _).
-  rewrite Gp, Gd, Gl, Gj, Gs, Gr, Hp, Hd, Hl, Hj, Hs, Hr. repeat match goal with |- _ /\ _ => split end; reflexivity.
+  assert (Hdir : Mode.is_directory (Some a) es ef = kind_eqb k KDir).
+  { unfold Mode.is_directory. rewrite Hes. destruct k; cbn [emptystream_of] in *; try exact Hd. now rewrite (Hef eq_refl). }
+  rewrite Gp, Gd, Gl, Gj, Gs, Gr, Hp, Hdir, Hl, Hj, Hs, Hr. repeat match goal with |- _ /\ _ => split end; reflexivity.
 Qed.
+
+(* an empty-stream entry is a directory exactly when its EmptyFile bit is not set, whatever the attribute word (the format's
+   rule, F22); with data the attribute word decides *)
+Theorem gen_is_directory_nodata a ef : AttrDecoders.is_directory a (Some true) ef = Ok (negb (flag_set ef)).
+Proof. rewrite gen_is_directory. reflexivity. Qed.
+Theorem gen_is_directory_data a es ef : flag_set es = false ->
+  AttrDecoders.is_directory a es ef = Ok (Mode.test_attribute a Mode.FA_DIRECTORY).
+Proof. intros H. rewrite gen_is_directory. unfold Mode.is_directory. now rewrite H. Qed.
 
 (* non-vacuity: a regular file 0o644 as writeall stores it (attributes_of KFile 0o100644), a link, no attributes *)
 Example ex_gen_decoders :
   AttrDecoders.posix_mode (Some (attributes_of KFile 33188)) = Ok (Some 420) /\
   AttrDecoders.is_symlink (Some (attributes_of KLink 41471)) = Ok true /\
-  AttrDecoders.is_directory (Some (attributes_of KDir 16877)) = Ok true /\
+  AttrDecoders.is_directory (Some (attributes_of KDir 16877)) (Some true) (Some false) = Ok true /\
+  AttrDecoders.is_directory (Some (attributes_of KFile 33188)) (Some true) None = Ok true /\
+  AttrDecoders.is_directory (Some (attributes_of KDir 16877)) (Some true) (Some true) = Ok false /\
+  AttrDecoders.is_directory None None None = Ok false /\
   AttrDecoders.posix_mode None = Ok None /\ AttrDecoders.is_symlink None = Ok false.
 Proof. repeat match goal with |- _ /\ _ => split end; reflexivity. Qed.
+
+Theorem gen_is_directory_format_rule a es ef :
+  AttrDecoders.is_directory a (Some true) ef = Ok (negb (flag_set ef)) /\
+  (flag_set es = false -> AttrDecoders.is_directory a es ef = Ok (Mode.test_attribute a Mode.FA_DIRECTORY)).
+Proof. split; [apply gen_is_directory_nodata | apply gen_is_directory_data]. Qed.
